@@ -15,7 +15,8 @@ RULE = ("(pdm) random rose trees (1-12 leaves quick, up to 40 thorough; polytomi
         "NodeDistanceMatrix; (tm) treemeasure.patristic_distance under current / never-made / stale encodings x refresh flag, compared with "
         "the model op `tm`; (mrca) same trees x random/all taxon subsets x start node x {current, never encoded, stale} encodings x refresh flag "
         "x {taxa, taxon_labels, leafset_bitmask}; (nj/upgma) additive / ultrametric dyadic matrices generated from random trees with positive "
-        "lengths (binary and polytomous), the same read back from CSV, unit-length (edge count) matrices, and arbitrary dyadic matrices "
+        "lengths (binary and polytomous; 40% with near-ties: internal edges of 2^-33 … 2^-20 next to heights of order 1 under a random "
+        "taxon-to-leaf mapping, so the true minimum beats the runner-up by < 1e-9 relative yet by many ulps), the same read back from CSV, unit-length (edge count) matrices, and arbitrary dyadic matrices "
         "(model comparison only); thorough adds every shape <= 6 leaves. Non-trivial = >= 4 leaves.")
 MODELLED_NOT_VERIFIED = [
     "C14: the Lean functions walk/pairNode/mirror/lookup/meanPairwise/meanNearest, scanT/scanL/tail/treeMrca/collapseBasal, njJoin/njPick/njRun, "
@@ -600,7 +601,8 @@ def case_recon(ctx, dendropy, case, pending):
     toks = case["tree"]
     tree, ids = tu.tree_from_tokens(dendropy, toks, rooted=case["kind"] == "ultrametric")
     n = len(leaves_lr(tree))
-    ctx.case(["recon", toks, case["kind"], case.get("csv"), case.get("weighted", True)], n >= 4, sample=case, kind="recon-" + case["kind"])
+    ctx.case(["recon", toks, case["kind"], case.get("csv"), case.get("weighted", True)], n >= 4, sample=case,
+             kind="recon-" + case["kind"] + ("-neartie" if case.get("neartie") else ""))
     pdm = tree.phylogenetic_distance_matrix()
     weighted = case.get("weighted", True)
     src = tree
@@ -772,15 +774,29 @@ def gen_tm(ctx, dendropy, rng, max_leaves):
             "refresh": rng.random() < 0.5}
 
 
-def positive_lengths(rng, toks, ultrametric):
-    """rewrite the length column: all edges positive dyadic; ultrametric = all tips at the same depth"""
+TINY = (33, 31, 30, 28, 25, 22, 20)      # near-ties: internal edges of 2^-k (1e-10 … 1e-6) next to heights of order 1
+
+
+def positive_lengths(rng, toks, ultrametric, neartie=False):
+    """rewrite the length column: all edges positive dyadic; ultrametric = all tips at the same depth.
+    neartie: many internal edges are tiny relative to the height they sit at (near-polytomies of time-calibrated trees): the true
+    minimum of the UPGMA / NJ criterion is then separated from the runner-up by < 1e-9 relative, yet by many ulps — every value stays
+    an exactly representable dyadic, so binary64 decides each comparison unambiguously and the exact model still applies."""
     k = int(toks[0])
     par = [int(x) for x in toks[1:1 + k]]
     kids = {i: [j for j in range(k) if par[j] == i] for i in range(k)}
     toks = list(toks)
+
+    def tiny():
+        return Fraction(rng.randint(1, 3), 2 ** rng.choice(TINY))
     if not ultrametric:
         for i in range(k):
-            toks[1 + 2 * k + i] = "N" if par[i] < 0 else fr(rng.randint(1, 12) / float(2 ** rng.randint(0, 2)))
+            if par[i] < 0:
+                toks[1 + 2 * k + i] = "N"
+            elif neartie and kids[i] and rng.random() < 0.6:
+                toks[1 + 2 * k + i] = fr(tiny())
+            else:
+                toks[1 + 2 * k + i] = fr(rng.randint(1, 12) / float(2 ** rng.randint(0, 2)))
         return toks
     height = {}
 
@@ -788,7 +804,11 @@ def positive_lengths(rng, toks, ultrametric):
         if not kids[i]:
             height[i] = Fraction(0)
         else:
-            height[i] = max(h(j) for j in kids[i]) + Fraction(rng.randint(1, 6), 2 ** rng.randint(0, 2))
+            below = max(h(j) for j in kids[i])
+            if neartie and below > 0 and rng.random() < 0.7:
+                height[i] = below + tiny()
+            else:
+                height[i] = below + Fraction(rng.randint(1, 6), 2 ** rng.randint(0, 2))
         return height[i]
     h(par.index(-1))
     for i in range(k):
@@ -805,8 +825,9 @@ def gen_recon(ctx, dendropy, rng, max_leaves):
     tns = tu.make_namespace(dendropy, n, rng.randint(0, 2))
     tree = tu.build_tree(dendropy, shape, tns, rng.sample(list(tns), n), None, None)
     toks, _ = tu.encode_tree(tree)
-    toks = positive_lengths(rng, toks, kind == "ultrametric")
-    case = {"op": "recon", "tree": toks, "kind": kind, "csv": rng.random() < 0.3, "weighted": True}
+    neartie = rng.random() < 0.4
+    toks = positive_lengths(rng, toks, kind == "ultrametric", neartie)
+    case = {"op": "recon", "tree": toks, "kind": kind, "csv": rng.random() < 0.3, "weighted": True, "neartie": neartie}
     if kind == "additive" and rng.random() < 0.15:
         case["weighted"] = False
     return case
@@ -914,9 +935,10 @@ def exhaustive(ctx, dendropy, rng, pending):
                     count += 1
             if n >= 2:
                 for kind in ("additive", "ultrametric"):
-                    one_case(ctx, dendropy, {"op": "recon", "tree": positive_lengths(rng, toks, kind == "ultrametric"), "kind": kind,
-                                             "csv": False, "weighted": True}, pending)
-                    count += 1
+                    for neartie in (False, True):
+                        one_case(ctx, dendropy, {"op": "recon", "tree": positive_lengths(rng, toks, kind == "ultrametric", neartie),
+                                                 "kind": kind, "csv": False, "weighted": True, "neartie": neartie}, pending)
+                        count += 1
             count += 1
             if len(pending) >= 2000:
                 flush(ctx, pending)
